@@ -363,6 +363,23 @@ def match(expr, root):
     return notifying, everything, alias
 
 
+def match_counts(expr, root):
+    """How many (branch, path) walks reach each observable."""
+    from collections import Counter
+    out = Counter()
+    for b in expr:
+        objs = [root]
+        for step in b:
+            nxt_all = []
+            for o in objs:
+                obs, nxt = _step_objects(o, step)
+                for ob in obs:
+                    out[(ob[0], id(ob[1])) + tuple(ob[2:])] += 1
+                nxt_all.extend(nxt)
+            objs = nxt_all
+    return out
+
+
 def nonterminal_keys(expr, root):
     """Observables matched at a step that is not the last of its branch, i.e.
     those whose change makes the maintainers re-walk part of the graph."""
